@@ -41,7 +41,7 @@ TRUSTED = [
     "item counts, apply_hash=False, _skip_this for exclude_paths / include_paths / exclude_types / exclude_obj_callback, number_format_notation='e', "
     "ints beyond 2^53 under number formatting, truncate_datetime, ignore_type_in_groups) is table-free: inputs with == aliases among table keys are kept out of its correspondence",
     "cyclic containers, numpy / pandas / polars, custom operators, use_enum_value, encodings, timedelta under number formatting (the code raises), Decimal with "
-    "notation 'e', time with microseconds, subclass membership in ignore_type_in_groups, textual include-path prefixes are outside every model",
+    "notation 'e', time with microseconds, subclass membership in ignore_type_in_groups, str keys with quotes / brackets under path options are outside every model",
 ]
 ASSUMPTIONS = ["acyclic inputs; a value in which one object occurs at several positions is compared with the model of its unfolded tree", "no nan/inf/-0.0"]
 
@@ -1539,7 +1539,8 @@ def gen_xcfg(rng, v):
 
 
 def textual_prefix_clash(cfg, v):
-    """include_paths are matched with str.startswith: root[1] also 'includes' root[10]; keep such inputs out"""
+    """include_paths are matched with str.startswith on the spelled path; for keys without quotes / brackets that is the
+    structural prefix relation (the closing bracket sees to it); any input where the two relations differ is kept out"""
     ip = [path_text(p) for p in cfg[1]]
     if not ip:
         return False
@@ -1607,6 +1608,78 @@ def rebuild_x(v, rng):
     if isinstance(v, (set, frozenset)):
         return type(v)(list(v))
     return copy.deepcopy(v)
+
+
+class Slot:
+    """an object with __slots__ and no __dict__ (the second strategy of _prep_obj)"""
+    __slots__ = ("a", "b")
+
+    def __init__(self, a, b):
+        self.a = a
+        self.b = b
+
+    def __repr__(self):
+        return "Slot(%r, %r)" % (self.a, self.b)
+
+
+def other_leaf_families():
+    """families of pairwise UNEQUAL values of leaf types outside both models (oracle only): uuid, complex, time with
+    microseconds, ipaddress interfaces / networks, __slots__ objects, Enum members of two classes, numpy arrays and
+    scalars, pytz-aware datetimes, ranges; built by expressions so that every call returns fresh objects"""
+    import ipaddress
+    import uuid
+    ns = dict(XNS)
+    ns.update({"UUID": uuid.UUID, "IPv4Interface": ipaddress.IPv4Interface, "IPv4Network": ipaddress.IPv4Network,
+               "IPv6Interface": ipaddress.IPv6Interface, "Slot": Slot, "range": range})
+    fams = {
+        "uuid": ["UUID(int=1)", "UUID(int=2)", "UUID('12345678123456781234567812345678')", "[UUID(int=1), UUID(int=2)]", "{UUID(int=1): 'a'}"],
+        "complex": ["complex(1, 2)", "complex(2, 1)", "complex(1, 0)", "complex(0, 1)", "[complex(1, 2)]", "{'z': complex(0, 1)}"],
+        "time_us": ["time(1, 2, 3, 4)", "time(1, 2, 3, 5)", "time(1, 2, 3)", "time(1, 2, 4)", "time(23, 59, 59, 999999)", "time(0, 0, 0, 1)", "[time(1, 2, 3, 4)]"],
+        "ip": ["IPv4Interface('10.0.0.1/24')", "IPv4Interface('10.0.0.1/25')", "IPv4Network('10.0.0.0/24')", "IPv6Interface('::1/64')", "[IPv4Interface('10.0.0.1/24')]"],
+        "slots": ["Slot(1, 2)", "Slot(2, 1)", "Slot(1, [2])", "Slot([1], 2)", "[Slot(1, 2), Slot(2, 1)]", "{'s': Slot(1, 2)}"],
+        "enum": ["Col.RED", "Col.BLUE", "Col.GREEN", "[Col.RED]", "{'c': Col.RED}", "{Col.RED: 1}", "{Col.BLUE: 1}"],
+        "range": ["range(3)", "range(4)", "range(1, 4)", "[range(3)]"],
+    }
+    try:
+        import numpy as np
+        ns["np"] = np
+        fams["numpy"] = ["np.array([1, 2, 3])", "np.array([1, 2, 4])", "np.array([[1, 2], [3, 4]])", "np.array([1.0, 2.0, 3.0])", "np.int64(1)",
+                         "np.float64(1.5)", "np.array([1, 2, 3], dtype=np.int32)", "[np.array([1, 2, 3]), 'x']", "{'a': np.array([1, 2, 4])}"]
+    except ImportError:
+        pass
+    try:
+        import pytz
+        ns["pytz"] = pytz
+        fams["pytz"] = ["datetime(2020, 1, 1, 12, 0, tzinfo=pytz.utc)", "pytz.timezone('Europe/Paris').localize(datetime(2020, 1, 1, 12, 0))",
+                        "pytz.timezone('US/Eastern').localize(datetime(2020, 7, 1, 12, 0))", "[datetime(2020, 1, 1, 12, 0, tzinfo=pytz.utc)]"]
+    except ImportError:
+        pass
+
+    def build(e):
+        g = {"__builtins__": {}}
+        g.update(ns)
+        return eval(e, g)
+    return fams, build
+
+
+def oracle_other_leaves(ctx):
+    """the copy / rebuild clause on leaf types outside both models"""
+    fams, build = other_leaf_families()
+    for name, exprs in fams.items():
+        for e in exprs:
+            for o in MODES3:
+                v, w = build(e), build(e)
+                try:
+                    c = copy.deepcopy(v)
+                    h0, h1, h2 = impl_hash(v, o)[0], impl_hash(c, o)[0], impl_hash(w, o)[0]
+                except Exception as ex:
+                    ctx.count("oracle:other_leaves:raises:" + type(ex).__name__)
+                    continue
+                ctx.seen(("other_leaf", name, e, o), nontrivial=True)
+                ctx.count("oracle:other_leaves_copy")
+                if h1 != h0 or h2 != h0:
+                    ctx.fail({"kind": "other_leaf_copy", "family": name, "opts": list(o), "value": e},
+                             "hash changed by deep copy / rebuilding of %s" % e)
 
 
 def oracle_shapes(ctx):
@@ -1790,6 +1863,7 @@ def run(ctx):
     corr_members(ctx, 600 if ctx.thorough else 120)
     corr_x(ctx, 400 if ctx.thorough else 45)
     oracle_shapes(ctx)
+    oracle_other_leaves(ctx)
     oracle_options(ctx, rng, 120 if ctx.thorough else 25)
     oracle_opaque(ctx)
     # --- repeated sub-objects (one object at several positions), long-lived tables, in-place edits
@@ -1821,6 +1895,10 @@ def replay(ctx, data):
     kind = case.get("kind")
     rng = random.Random(0)
     MODE_NAME.setdefault(o, "options")
+    if kind == "other_leaf_copy":
+        oracle_other_leaves(ctx)
+        print("replay: copy clause on leaf types outside the models (family %s): %s" % (case.get("family"), case["value"]))
+        return
     if kind == "option_shape":
         oracle_shapes(ctx)
         print("replay: option shapes (family %s) on %s" % (case.get("family"), case["value"]))
